@@ -539,9 +539,38 @@ class SymExec:
             out.append((simplify(val), cs))
         return out
 
+    def _fold_property_calls(self, v):
+        """`self.idx(0)` -> `self.idx_1` when the class has a plain property whose body is `return self.idx(0)`: the
+        call with the constant written out (after a helper parameter was substituted) is the named quantity"""
+        tbl = self.__dict__.get('_prop_calls')
+        if tbl is None:
+            tbl = {}
+            cls = self.ctx.model.classes.get(self.self_cls) if self.self_cls else self.func.cls
+            for ci in (cls.mro if cls is not None else []):
+                for nm_, g_ in ci.methods.items():
+                    if g_.kind != 'property':
+                        continue
+                    b_ = [x_ for x_ in g_.body() if not (isinstance(x_, ast.Expr) and isinstance(x_.value, ast.Constant))]
+                    if len(b_) == 1 and isinstance(b_[0], ast.Return) and isinstance(b_[0].value, ast.Call):
+                        c_ = b_[0].value
+                        if isinstance(c_.func, ast.Attribute) and isinstance(c_.func.value, ast.Name) and c_.func.value.id == 'self' \
+                           and not c_.keywords and c_.args and all(isinstance(a_, ast.Constant) for a_ in c_.args):
+                            tbl.setdefault(norm(c_), nm_)
+            self._prop_calls = tbl
+        if not tbl:
+            return v
+        if not any(isinstance(n_, ast.Call) and isinstance(n_.func, ast.Attribute) and isinstance(n_.func.value, ast.Name)
+                   and n_.func.value.id == 'self' for n_ in ast.walk(v)):
+            return v
+        return copy_replace(v, lambda n_: ast.Attribute(value=ast.Name(id='self', ctx=ast.Load()), attr=tbl[norm(n_)], ctx=ast.Load())
+                            if isinstance(n_, ast.Call) and isinstance(n_.func, ast.Attribute) and isinstance(n_.func.value, ast.Name)
+                            and n_.func.value.id == 'self' and all(isinstance(a_, ast.Constant) for a_ in n_.args) and not n_.keywords
+                            and norm(n_) in tbl else None)
+
     def eval_expr(self, e, path):
         """[(value AST, Path)]: e substituted in path.env; helper calls expanded (forking)"""
         v = self.subst(e, path.env)
+        v = self._fold_property_calls(v)
         if self.volatile:
             ncre = sum(1 for ev in path.events if ev[0] == 'create')
             done = {id(x.args[0]) for x in ast.walk(v) if isinstance(x, ast.Call) and isinstance(x.func, ast.Name)
